@@ -213,6 +213,7 @@ class STensor:
             old = self._fn
             self._fn = memo(lambda idx: upd(idx, old(idx)))
             self.written = True
+            self.version = getattr(self, "version", 0) + 1
             return
         inv = self.inv
 
@@ -1043,6 +1044,18 @@ def _pick_scalar(lst, j):
     return r
 
 
+def selection_of(mask):
+    """Selection for a mask tensor; the same (unmodified) mask object yields the same
+    enumeration, as it does in torch/numpy."""
+    ver = getattr(mask.owner(), "version", 0)
+    c = getattr(mask, "_selection", None)
+    if c is not None and c[0] == ver:
+        return c[1]
+    sel = Selection(mask)
+    mask._selection = (ver, sel)
+    return sel
+
+
 def lex_lt(a, b):
     r = False
     for x, y in reversed(list(zip(a, b))):
@@ -1289,7 +1302,7 @@ def _getitem_mask(t, key):
             raise PyExc("IndexError", ("The shape of the mask %s does not match the shape of the indexed tensor %s" % (mask.shape, t.shape),))
         if e is None:
             ctx.cur().require(i_eq(a, b), "IndexError", "mask shape mismatch")
-    sel = Selection(mask)
+    sel = selection_of(mask)
     src = t.reader()
     out_shape = [sel.N] + t.shape[m:]
 
@@ -1346,7 +1359,7 @@ def setitem(t, key, value):
         mr = mask.reader()
         if isinstance(value, STensor) and value.rank > 0:
             # value rows align with the selected cells: shape broadcastable to (N, rest)
-            sel = Selection(mask)
+            sel = selection_of(mask)
             tgt_shape = [sel.N] + t.shape[m:]
             # torch requires value to broadcast to tgt_shape
             vshape = value.shape
